@@ -44,6 +44,12 @@ def case(rep, drv, rnd, i, tier):
     g = cgen.CGen(rnd, hostile=0.35)
     nsrc = rnd.choice([1, 1, 2, 3])
     texts = [g.text(g.program(rnd.randint(1, 3))) for _ in range(nsrc)]
+    if rnd.random() < 0.35:
+        # predicates for which no code at all is generated (the function body is a bare `pass`)
+        k = rnd.randrange(nsrc)
+        name = rnd.choice(['disabled', 'off', 'never', 'stub'])
+        texts[k] += '\n' + rnd.choice(['%s :- fail.', '%s :- \\+ true.', '%s :- fail, q(X).', '%s :- fail.\n%s :- fail -> true.']).replace('%s', name) + '\n'
+        rep.count('no-code-predicate')
     broken = rnd.random() < 0.15
     if broken:
         k = rnd.randrange(nsrc)
@@ -136,7 +142,7 @@ def run(tier):
     with Check(PROP, tier) as chk:
         par.run_cases(chk.rep, 'harness.checks.c19', 'case', n)
         chk.finish(rule='`python -m yldprolog.compiler` as a subprocess on 1-3 sources (quoted atoms with LF, CR, CRLF, non-ASCII; file '
-                        'names with spaces, line breaks, non-ASCII, leading dash), files or `-`, stdout or -o, compared byte for byte '
+                        'names with spaces, line breaks, non-ASCII, leading dash; one case in three adds a predicate for which no code is generated), files or `-`, stdout or -o, compared byte for byte '
                         'with compile_prolog_from_file / _from_string per source in order; failing sources must give a non-zero exit '
                         'status and the error position; then 3 random (thorough: all 15) combinations of the debug flags: output with '
                         'comment lines removed must be identical; distinct = distinct source sets')
